@@ -947,6 +947,10 @@ func c16BackEnd(a Args, rng *rand.Rand, res *Result, cases []c16Case, replay *c1
 	}
 	// three modules in one file, the last one using types of the first two (and the second those of the first)
 	c16CompileText(res, t2g, filepath.Join(base, "tvthree"), map[string]string{"three.tars": c16ThreeModules}, "three.tars", nil)
+	// two modules in a file whose first module takes types and an enum default from an included file
+	c16CompileText(res, t2g, filepath.Join(base, "tvtwo"), map[string]string{
+		"two.tars": "#include \"base.tars\"\nmodule A { struct SA { 0 require Base::Pt p; 1 optional Base::Kind k = ROUND; 2 optional vector<Base::Pt> ps; }; };\nmodule B { struct SB { 0 require A::SA a; 1 optional Base::Pt q; }; interface I { A::SA f(Base::Pt p, out Base::Kind k); }; };\n",
+		"base.tars": "module Base { enum Kind { FLAT, ROUND }; struct Pt { 0 require int x; 1 require int y; }; };\n"}, "two.tars", nil)
 	c16CompileText(res, t2g, filepath.Join(base, "tvchain4"), c16Chain4, "top.tars", nil)
 	c16CompileText(res, t2g, filepath.Join(base, "tvchain4c"), c16Chain4, "top.tars", []string{"-module-cycle"}) // imports by (file, module)
 	// -module-cycle lays the packages out by file and module: a dependent pair must still compile (compile only)
